@@ -146,6 +146,35 @@ def c12(tier, seed):
         ('cat', [('alt', ['a', 'b', 'c', 'd']), '.txt']),
         ('cat', [('alt', [('alt', ['a', 'b']), ('alt', ['c', 'd'])])]),
     ]
+    # random terms from the grammar of the property's quantifier: nesting depth <= 3, <= 4 alternatives, <= 3 groups per word, empty alternatives
+    def gen(depth):
+        parts = []
+        ngroups = rnd.randint(1, 3) if depth == 0 else rnd.randint(0, 2)
+        for g in range(ngroups):
+            if rnd.random() < 0.6:
+                parts.append(rnd.choice(['a', 'b', 'x', 'pre', '-', '.', '1']))
+            alts = []
+            for _ in range(rnd.randint(2, 4)):
+                r_ = rnd.random()
+                if r_ < 0.15:
+                    alts.append('')
+                elif r_ < 0.4 and depth < 2:
+                    alts.append(gen(depth + 1))
+                else:
+                    alts.append(rnd.choice(['a', 'b', 'c', 'd', 'e1', 'f2']))
+            if all(isinstance(a, str) and a == '' for a in alts):
+                alts[0] = 'z'
+            parts.append(('alt', alts))
+        if rnd.random() < 0.5 or not parts:
+            parts.append(rnd.choice(['q', 'y', '.txt', '2']))
+        return ('cat', parts)
+    for _ in range(40 if tier == 'quick' else 300):
+        t = gen(0)
+        if not any(isinstance(x, tuple) for x in t[1]):
+            continue
+        if len(_brace(t)) > 200:
+            continue
+        terms.append(t)
     for t in terms:
         txt = _brace_text(t)
         exp = _brace(t)
@@ -286,6 +315,12 @@ def c03(tier, seed):
                 exp.append(str(i)); status = s
         out.append({'line': ' '.join(parts), 'files': {'st': ST}, 'expect_stdout': ''.join(x + '\n' for x in exp), 'expect_rc': status, 'area': 'list:short-circuit'})
         out.append({'script': ' '.join(parts) + '\n', 'files': {'st': ST}, 'expect_stdout': ''.join(x + '\n' for x in exp), 'expect_rc': status, 'area': 'list:script-status'})
+    # the same list written in a script, with operators directly after quoted words
+    out += [
+        {'script': './st "a" 0; ./st \'b\' 3 && ./st c 0 || ./st "d" 5;./st e 0\n', 'files': {'st': ST}, 'expect_stdout': 'a\nb\nd\ne\n', 'expect_rc': 0, 'area': 'list:script:operators-after-quotes'},
+        {'script': './st "a;b" 0;./st "c" 4\n', 'files': {'st': ST}, 'expect_stdout': 'a;b\nc\n', 'expect_rc': 4, 'area': 'list:script:operators-after-quotes'},
+        {'script': './st "$1" 0; ./st "${2}" 0;./st "$@" 0\n', 'args': ['x', 'y z'], 'files': {'st': ST}, 'expect_stdout': 'x\ny z\nx y z\n', 'area': 'list:script:operators-after-quotes'},
+    ]
     out += [
         {'line': "./st 'a;b' 0; ./st \"c&&d\" 0; ./st e\\;f 0", 'files': {'st': ST}, 'expect_stdout': 'a;b\nc&&d\ne;f\n', 'area': 'list:decoy-operators'},
         {'line': "./st '||' 3 || ./st \"&&\" 0 && ./st \\; 5", 'files': {'st': ST}, 'expect_stdout': '||\n&&\n;\n', 'expect_rc': 5, 'area': 'list:decoy-operators'},
@@ -385,6 +420,36 @@ def c09(tier, seed):
         {'line': 'mkdir d1; cd d1; echo x > f; cd ..; cat d1/f', 'files': F, 'expect_stdout': 'x\n', 'area': 'cd:relative-redirect'},
         {'line': 'export HOME=/nonexistent-xyz; cd; echo rc=$?', 'files': F, 'expect_stdout': 'rc=1\n', 'area': 'cd:no-argument-failed'},
     ]
+    # random histories of assign / export / unset / prefixed command over two names, checked after every step against the model the property states
+    rnd = random.Random(seed + 9)
+    ENV2 = '#!/bin/sh\nprintf "<%s|%s>\\n" "$A" "$B"\n'
+    vals = ['x', 'a b', 'p=q', 'r:s', '', 'v2']
+    for _ in range(30 if tier == 'quick' else 300):
+        sh, ex, lines, exp = {}, {}, [], []
+        for step in range(rnd.randint(3, 8)):
+            n_ = rnd.choice(['A', 'B'])
+            v = rnd.choice(vals)
+            op = rnd.choice(['assign', 'assign', 'export', 'unset', 'prefix'])
+            if op == 'assign':
+                lines.append("%s='%s'" % (n_, v))
+                if n_ in ex:
+                    ex[n_] = v
+                else:
+                    sh[n_] = v
+            elif op == 'export':
+                lines.append("export %s='%s'" % (n_, v))
+                ex[n_] = v
+                sh.pop(n_, None)
+            elif op == 'unset':
+                lines.append('unset %s' % n_)
+                sh.pop(n_, None); ex.pop(n_, None)
+            else:
+                lines.append("%s='%s' ./env2" % (n_, v))
+                e2 = dict(ex); e2[n_] = v
+                exp.append('<%s|%s>' % (e2.get('A', ''), e2.get('B', '')))
+            lines.append('./pargs "$A" "${B}"; ./env2')
+            exp += ['[%s]' % sh.get('A', ex.get('A', '')), '[%s]' % sh.get('B', ex.get('B', '')), '<%s|%s>' % (ex.get('A', ''), ex.get('B', ''))]
+        out.append({'script': '\n'.join(lines) + '\n', 'files': {'pargs': PARGS, 'env2': ENV2}, 'expect_stdout': '\n'.join(exp) + '\n', 'area': 'vars:random-history', 'timeout': 10})
     return out
 
 
